@@ -394,8 +394,17 @@ sexp sexp_integer_length (sexp ctx, sexp self, sexp_sint_t n, sexp x) {
 #if SEXP_USE_BIGNUMS
   } else if (sexp_bignump(x)) {
     hi = sexp_bignum_hi(x);
-    return sexp_make_fixnum(integer_log2(sexp_bignum_data(x)[hi-1])
-                            + (hi-1)*sizeof(sexp_uint_t)*CHAR_BIT);
+    tmp = integer_log2(sexp_bignum_data(x)[hi-1])
+      + (hi-1)*sizeof(sexp_uint_t)*CHAR_BIT;
+    /* as for fixnums the length of a negative number is that of -x-1, */
+    /* which is one bit shorter when the magnitude is a power of two   */
+    if (sexp_bignum_sign(x) < 0
+        && !(sexp_bignum_data(x)[hi-1] & (sexp_bignum_data(x)[hi-1]-1))) {
+      for (hi-=2; hi>=0 && !sexp_bignum_data(x)[hi]; hi--)
+        ;
+      if (hi < 0) tmp--;
+    }
+    return sexp_make_fixnum(tmp);
 #endif
   } else {
     return sexp_type_exception(ctx, self, SEXP_FIXNUM, x);
